@@ -189,9 +189,9 @@ def check(run):
         for b in nbad:
             if k in ('transact-code-diagnostic-range', 'not-a-token-boundary', 'inverted') and b.get('field') == 'diagnostic':
                 return b
-            if k == 'name-range' and b.get('field') == 'symbol_range':
+            if k == 'name-range' and b.get('field') == 'symbol_range' and (b.get('node') == 'type') == key.split(':')[1].startswith('Type'):
                 return b
-            if k in ('full-range', 'full-range-excludes-name') and b.get('field') == 'full_range':
+            if k in ('full-range', 'full-range-excludes-name') and b.get('field') == 'full_range' and (b.get('node') == 'type') == key.split(':')[1].startswith('Type'):
                 return b
             if k == 'oneway-range' and b.get('field') == 'oneway_range':
                 return b
@@ -332,3 +332,44 @@ def parse_error_obligation(run):
             run.violated('parse failures become diagnostics', 'M', 'from_parse_error:' + detail[0][:60], {'detail': detail}, True, queries=nq)
     except mir.Unsupported as e:
         run.inconclusive('from_parse_error', 'M', str(e))
+
+
+def docscan_obligation(run):
+    """C18 mechanism: every documentable production passes the offset of its FIRST token (before its annotations) to get_javadoc (engine A)."""
+    gen = replay.generated_parser()
+    T = tables.extract(gen)
+    A = acteval.Actions(gen)
+    bad, nq, nprod, kinds = [], 0, 0, set()
+    for r, (lhs, rhs, act) in sorted(T.prod.items()):
+        if lhs not in ('Interface', 'Parcelable', 'Enum', 'Method', 'Arg', 'Const', 'Field', 'EnumElement'):
+            continue
+        try:
+            P = acteval.Production(A, r, lhs, rhs, act)
+            jp = P.javadoc_pos()
+        except acteval.Unsupported as e:
+            run.inconclusive('engine A on %s' % lhs, 'A', str(e))
+            continue
+        if jp is None:
+            bad.append({'production': '%s = %s' % (lhs, rhs), 'what': 'the action does not call get_javadoc'})
+            continue
+        if not P.rhs:
+            continue
+        nprod += 1
+        kinds.add(lhs)
+        res, m = sat(P, jp != P.s[0]); nq += 1
+        if res == z3.sat:
+            bad.append({'production': '%s = %s' % (lhs, rhs), 'scan_start': str(jp), 'layout': layout_of(P, m)})
+    nn, nbad = native.sweep_doc_attachment()
+    run.validated += nn
+    run.extra['native_doc_attachment'] = {'cases': nn, 'discrepancies': len(nbad)}
+    title = 'the doc-comment scan of every documentable construct starts at its first token, before its annotations (%d productions of %d kinds)' % (nprod, len(kinds))
+    if bad:
+        kinds_bad = sorted({b['production'].split(' =')[0] for b in bad})
+        rel = [b for b in nbad if any(k.lower().replace('element', '_element') in str(b.get('node', '')).lower() or k == 'Const' and 'const' in str(b.get('node', '')) for k in kinds_bad)] or nbad
+        run.violated(title, 'A', 'doc-scan-start:' + ','.join(kinds_bad), {'solver': bad[:3], 'native': rel[:3]}, bool(rel), queries=nq, bound='all layouts')
+    elif len(kinds) < 8:
+        run.inconclusive(title, 'A', 'documentable kinds found: %s' % sorted(kinds))
+    else:
+        run.holds(title, 'A', queries=nq, bound='all layouts (unbounded integers)')
+        if nbad:
+            run.inconclusive('native doc attachment sweep', 'replay', 'discrepancy not explained by a solver verdict: %s' % str(nbad[0])[:300])
